@@ -1,9 +1,10 @@
 (* Extraction of the C05 model; run by the check driver from the build directory. *)
 Require Extraction.
 Require Import ExtrOcamlBasic.
-From Verif Require Import Lib.Base Lib.Dyadic Lib.Utf8 Model.Value.
+From Verif Require Import Lib.Base Lib.Dyadic Lib.Utf8 Lib.Regex Model.Value Model.Fields Proofs.ValueFields.
 Extraction "model.ml"
   of_bits canon
   parse_float parse_float_prefix scan_prefix go_parse_float ascii_trim
   num_to_str v_str v_num v_boolean is_true_str prov_value
-  expr_site jump_site spec_cmp cond_direct cond_inverted.
+  expr_site jump_site spec_cmp cond_direct cond_inverted
+  xinit xread xfield xset_field xset_field_self xset_nf xset_fs1.
